@@ -217,15 +217,18 @@ class SimPool:
     def __exit__(self, *exc):
         return False
 
-    def starmap(self, func, iterable):
+    def starmap(self, func, iterable, chunksize=None):
         w = self.world
         tasks = list(iterable)
         n = len(tasks)
         if n == 0:
             return []
-        chunksize, extra = divmod(n, self.processes * 4)
-        if extra:
-            chunksize += 1
+        if chunksize is None:
+            chunksize, extra = divmod(n, self.processes * 4)
+            if extra:
+                chunksize += 1
+        if chunksize <= 0:
+            return [None] * n          # CPython: a MapResult with chunksize <= 0 is 'ready' at once, nothing runs
         blob = pickle.dumps(func)
         chunks = collections.deque((s, tasks[s:s + chunksize]) for s in range(0, n, chunksize))
         results = [None] * n
@@ -530,8 +533,9 @@ class PfWorld:
             pp['RUN_OCR'] = 'yes'
             extra['LAYOUT_PARSER_1'] = {
                 'METHOD': 'LAYOUT_CNN', 'MODEL_PATH': cnnstub.ensure_parsenet(cdir), 'DETECT_REGIONS': 'yes', 'DETECT_LINES': 'yes',
-                'DETECT_STRAIGHT_LINES_IN_REGIONS': 'no', 'MERGE_LINES': 'no', 'ADJUST_HEIGHTS': 'no', 'MULTI_ORIENTATION': 'no',
-                'ADJUST_BASELINES': 'no', 'USE_CPU': 'yes', 'DOWNSAMPLE': str(cfg.get('cnn_downsample', 4)),
+                'DETECT_STRAIGHT_LINES_IN_REGIONS': 'no',
+                'MERGE_LINES': 'yes' if cfg.get('cnn_merge') else 'no', 'ADJUST_HEIGHTS': 'yes' if cfg.get('cnn_heights') else 'no',
+                'MULTI_ORIENTATION': 'no', 'ADJUST_BASELINES': 'yes' if cfg.get('cnn_baselines') else 'no', 'USE_CPU': 'yes', 'DOWNSAMPLE': str(cfg.get('cnn_downsample', 4)),
                 'ADAPTIVE_DOWNSAMPLE': 'yes' if cfg.get('cnn_adaptive', True) else 'no', 'DETECTION_THRESHOLD': '0.2', 'MAX_MEGAPIXELS': '5'}
             extra['LINE_CROPPER'] = {'INTERP': '2', 'LINE_SCALE': '1', 'LINE_HEIGHT': str(stubocr.LINE_HEIGHT)}
         if mode == 'layout':
